@@ -217,11 +217,59 @@ theorem csweepWith_inv (s : CState) (h : CInv s) (X : List Nat) (w' : Wheel)
     rw [e]; exact hj
   · exact hw
 
+theorem jinv_of_perm {S : List Nat} {p : Policy} {l l' : List Nat} (h : JInv S p l) (hp : l.Perm l') : JInv S p l' :=
+  ⟨h.reach, h.quiet, hp.nodup_iff.mp h.nodup, fun id => by rw [← hp.mem_iff]; exact h.alive id⟩
+
+theorem perm_move (l : List Nat) (id : Nat) (hn : l.Nodup) (hm : id ∈ l) : l.Perm (id :: l.filter (· != id)) := by
+  rw [List.perm_ext_iff_of_nodup hn]
+  · intro x
+    rw [List.mem_cons, List.mem_filter]
+    constructor
+    · intro hx
+      by_cases e : x = id
+      · exact Or.inl e
+      · exact Or.inr ⟨hx, by simpa using e⟩
+    · rintro (e | ⟨hx, _⟩)
+      · rw [e]; exact hm
+      · exact hx
+  · rw [List.nodup_cons]
+    refine ⟨?_, List.Nodup.sublist List.filter_sublist hn⟩
+    intro hx; have := (List.mem_filter.mp hx).2; simp at this
+
+/-- **a drained read that moved the deadline, through both policies** (onAccess): policy.access, the node unscheduled and
+    scheduled again with its new deadline, then the eviction pass and the callback -/
+def cread (s : CState) (id d' : Nat) : CState :=
+  let p' := evictNodes (access s.p id)
+  let l1 := (id, d') :: s.live.filter (fun q => q.1 != id)
+  { S := s.S, p := p',
+    w := (victims p' l1).foldl Impl.Wheel.delete (Impl.Wheel.add (Impl.Wheel.delete s.w id) id d'),
+    live := l1.filter (fun q => !(victims p' l1).contains q.1) }
+
+theorem cread_inv (s : CState) (h : CInv s) (id d' : Nat) (hm : id ∈ s.live.map (·.1)) (hd : d' < Impl.Wheel.two64) :
+    CInv (cread s id d') := by
+  have hj := jmove h.pol (Reach.access id h.pol.reach) (Dn.of_mv (mv_access _ id (reach_inv h.pol.reach).c))
+  have hw1 := Impl.Wheel.wj_remove h.whl id
+  have hnl : id ∉ (s.live.filter (fun q => q.1 != id)).map (·.1) := by
+    intro hx
+    obtain ⟨q, hq, e⟩ := List.mem_map.mp hx
+    have := (List.mem_filter.mp hq).2
+    simp [e] at this
+  have hw := Impl.Wheel.wj_insert hw1 id d' hd hnl
+  unfold cread
+  simp only
+  generalize evictNodes (access s.p id) = p' at hj ⊢
+  constructor
+  · show JInv s.S p' ((((id, d') :: s.live.filter (fun q => q.1 != id)).filter
+        (fun q => !(victims p' ((id, d') :: s.live.filter (fun q => q.1 != id))).contains q.1)).map (·.1))
+    rw [survivors_map p' ((id, d') :: s.live.filter (fun q => q.1 != id)), List.map_cons, map_filter_ne]
+    exact jinv_of_perm hj ((perm_move _ id h.pol.nodup hm).filter _)
+  · exact wj_remove_many hw _
+
 /-! ### histories of the combined state -/
 
 inductive COp where
   | insert (id key wt d : Nat) | replace (id old key wt d : Nat) | remove (old : Nat) | expireOne (old : Nat)
-  | sweep (T : Nat)
+  | sweep (T : Nat) | read (id d' : Nat)
 
 /-- operations whose precondition fails are not steps of the cache (relation, not a function with `if d < 2^64`: see WheelJoint) -/
 inductive CStep : CState → CState → Prop
@@ -230,6 +278,7 @@ inductive CStep : CState → CState → Prop
       CStep s (creplace s id old key wt d)
   | remove (s : CState) (old : Nat) : old ∈ s.live.map (·.1) → CStep s (cremove s old)
   | expireOne (s : CState) (old : Nat) : old ∈ s.live.map (·.1) → CStep s (cexpireOne s old)
+  | read (s : CState) (id d' : Nat) : id ∈ s.live.map (·.1) → d' < Impl.Wheel.two64 → CStep s (cread s id d')
   | sweep (s s' : CState) (T : Nat) : s.w.time ≤ T → T < Impl.Wheel.two64 →
       s' = csweepWith s (Impl.Wheel.deleteExpired s.w T).2 (Impl.Wheel.deleteExpired s.w T).1 → CStep s s'
 
@@ -243,6 +292,7 @@ theorem cstep_inv {s s' : CState} (st : CStep s s') (h : CInv s) : CInv s' := by
   | replace id old key wt d hs ho hd => exact creplace_inv s h id old key wt d hs ho hd
   | remove old ho => exact cremove_inv s h old ho
   | expireOne old ho => exact cexpireOne_inv s h old ho
+  | read id d' hm hd => exact cread_inv s h id d' hm hd
   | sweep _ T hle hT e => rw [e]; exact csweepWith_inv s h _ _ (Impl.Wheel.wj_sweep h.whl T hle hT)
 
 /-- **both agreements after every history of insertions, removals and expirations** -/
